@@ -169,8 +169,10 @@ class World:
                 k2, dt, dflt = self.leaf_dt()
                 ns[name] = C.Parameter('redefined', dt, default=dflt)
             elif ov == 'bare':
-                val = {'double': 2.0, 'int': 3, 'scaled': 2.5, 'string': 'b', 'enum': 2, 'bool': False, 'array': (2.0, 3.0),
-                       'struct': {'x': 2, 'y': 'b'}, 'tuple': (2, 1), 'limits': (-2.0, 3.0)}[kind]
+                # (two values per kind: a bare override over a bare override of another value must win as well)
+                val = {'double': (2.0, 3.5), 'int': (3, 4), 'scaled': (2.5, 1.5), 'string': ('b', 'c'), 'enum': (2, 1), 'bool': (False, True),
+                       'array': ((2.0, 3.0), (1.0,)), 'struct': ({'x': 2, 'y': 'b'}, {'x': 1, 'y': 'c'}), 'tuple': ((2, 1), (1, 2)),
+                       'limits': ((-2.0, 3.0), (-1.0, 1.0))}[kind][rng.random() < 0.5]
                 ns[name] = val
             elif ov == 'none':
                 ns[name] = None
